@@ -207,9 +207,13 @@ def gen_case(tape, tier):
             else:
                 ops.append({"op": k})
         return {"part": "A", "config": cfg, "ops": ops}
-    cls = tape.pick(["lru", "lru", "hybrid"], "cls")
+    cls = tape.pick(["lru", "lru", "hybrid", "disk"], "cls")
     cfg = {"cls": cls, "max_size": 1 + tape.choose(3, "max"), "shared": True, "cloudpickle": bool(tape.coin(0.5, "cp")),
            "preempt": tape.pick([0.3, 0.6, 0.9], "preempt")}
+    if cls == "disk":
+        cfg["max_size"] = tape.pick([None, 1, 2, 3], "disk-max")
+        cfg["with_lru"] = bool(tape.coin(0.6, "with-lru"))
+        cfg["lru_size"] = 1 + tape.choose(2, "lru-size")
     nv = 0
 
     def gen_ops(n):
@@ -483,8 +487,10 @@ def run_B(case, tape):
     viol, probes = [], {}
 
     def V(oracle, kind, detail=None, sig=None):
-        viol.append({"property": PID, "oracle": oracle, "kind": kind, "detail": detail,
-                     "signature": dict({"cls": cfg["cls"], "part": "B"}, **(sig or {}))})
+        base = {"cls": cfg["cls"], "part": "B"}
+        if cfg["cls"] == "disk":
+            base["with_lru"] = bool(cfg.get("with_lru"))
+        viol.append({"property": PID, "oracle": oracle, "kind": kind, "detail": detail, "signature": dict(base, **(sig or {}))})
 
     hist = []  # dict(client, op, inv, ret, result, exc)
     with C.Scratch() as root, warnings.catch_warnings():
@@ -556,9 +562,11 @@ def run_B(case, tape):
             V("no-raise", f"{r['op']['op']}-raised:{type(r['exc']).__name__}", {"op": r["op"], "client": r["client"], "exc": repr(r["exc"])[:200]},
               {"frame": _frame(r["exc"]), "exc": type(r["exc"]).__name__})
             return viol, probes, sim
-    # (b) len bound
+    # (b) len bound.  Not asserted for a DiskCache shared between processes: it writes the file and then
+    # evicts without any inter-process lock, so len() == max_size + (number of concurrent writers) is
+    # reachable by construction; the single-client bound is decided in part A.
     for r in hist:
-        if r["op"]["op"] == "len" and r["result"] > cfg["max_size"]:
+        if cfg["cls"] != "disk" and r["op"]["op"] == "len" and r["result"] > cfg["max_size"]:
             V("bound", "len-exceeds-max_size", {"len": r["result"], "max_size": cfg["max_size"], "client": r["client"]})
             return viol, probes, sim
     # (c) gets return None or a value put to that key, not older than the last put completed before the get began
